@@ -1445,6 +1445,11 @@ def cases(rng, ctx):
     for name in names:
         items = ['%s(%s)' % (name, a) for a in edges]
         items += ['%s(%s,%s)' % (name, a, b) for a in edges for b in edges]
+        # numeric TEXT at the edges of float(): overflow to infinity, not-a-number, underflow to zero, a 400-digit integer
+        texts = ['"1e400"', '"-1e400"', '"nan"', '"inf"', '"1e-400"', 'REPT("9",400)', '"-"&REPT("9",400)']
+        few = ['0', '1', '2', '-1', '0.5', '10^15']
+        items += ['%s(%s)' % (name, a) for a in texts]
+        items += ['%s(%s,%s)' % (name, a, b) for a in texts for b in few] + ['%s(%s,%s)' % (name, b, a) for a in texts for b in few]
         tri = [(a, b, c) for a in edges[:12] + ['10^15'] for b in edges[:12] + ['10^15'] for c in edges[:12] + ['10^15']]
         items += ['%s(%s,%s,%s)' % ((name,) + t) for t in rng.sample(tri, (40 if not thorough else 600) * scale)]
         out.append({'kind': 'strings', 'stream': 'fn-edge', 'items': items})
